@@ -33,6 +33,8 @@ class ChunkParser:
         self.chunk: bytes = b''  # Partial chunk received
         # Expected size of next following chunk
         self.size: Optional[int] = None
+        # True once the last (zero sized) chunk has been received
+        self.last: bool = False
 
     def parse(self, raw: memoryview) -> memoryview:
         more = len(raw) > 0
@@ -48,25 +50,31 @@ class ChunkParser:
             self.chunk = b''
             # Extract following chunk data size
             line, raw = find_http_line(raw)
-            # CRLF not received or Blank line was received.
-            if line is None or line.strip() == b'':
+            if line is None:
+                # CRLF not received yet, wait for more data
                 self.chunk = raw
                 raw = b''
-            else:
+            elif line.strip() == b'':
+                # CRLF terminating previous chunk data, or,
+                # blank line terminating the last chunk (and its optional trailers)
+                if self.last:
+                    self.state = chunkParserStates.COMPLETE
+            elif not self.last:
                 self.size = int(line, 16)
                 self.state = chunkParserStates.WAITING_FOR_DATA
+            # else: trailer field after the last chunk, ignored
         elif self.state == chunkParserStates.WAITING_FOR_DATA:
             assert self.size is not None
             remaining = self.size - len(self.chunk)
             self.chunk += raw[:remaining]
             raw = raw[remaining:]
             if len(self.chunk) == self.size:
-                raw = raw[len(CRLF):]
+                # CRLF following chunk data is consumed
+                # as a blank line while waiting for next size
                 self.body += self.chunk
                 if self.size == 0:
-                    self.state = chunkParserStates.COMPLETE
-                else:
-                    self.state = chunkParserStates.WAITING_FOR_SIZE
+                    self.last = True
+                self.state = chunkParserStates.WAITING_FOR_SIZE
                 self.chunk = b''
                 self.size = None
         return len(raw) > 0, memoryview(raw)
